@@ -24,6 +24,7 @@ func init() {
 
 func runC15(p *eng.Prog, r *eng.Report, tier string) {
 	c := &cx{p, r, tier}
+	r17RefusalTableComplete(c, "C15.33")
 	r17ListenersUnderTheirOwnAddress(c, "C15.32")
 	// C15.31 (= C06.6): the answer to <close/> is released on every path (an unreleased response blocks the
 	// serve loop: later streams on the session never see their data or end-of-file)
